@@ -257,9 +257,13 @@ class Renderer:
                         text.append("/* " + rng.choice(COMMENT_WORDS).replace("*/", ""))
                         text.append("   lda #0 ; inside a comment")
                         text.append(rng.choice(["", "   "]) + "*/")
-                if lay.on("indent", 0.4):
+                if st is not None and st.get("_marker"):
+                    pass  # an injected statement is kept exactly as written
+                elif lay.on("indent", 0.4):
                     ln = rng.choice([" ", "  ", "    ", "\t", "\t\t", " \t "]) + ln
-                if lay.on("eolcomment", 0.15):
+                if st is not None and st.get("_marker"):
+                    pass
+                elif lay.on("eolcomment", 0.15):
                     ln = ln + rng.choice([" ", "  ", "   "]) + ";" + rng.choice(["", " "]) + rng.choice(COMMENT_WORDS)
                 elif lay.on("trailing", 0.2):
                     ln = ln + rng.choice([" ", "  ", "    "])
